@@ -241,7 +241,7 @@ class Interp:
             sh = self.__dict__.setdefault('default_shadow', {})
             if (fn, i) not in sh:
                 import copy
-                sh[(fn, i)] = copy.deepcopy(d)
+                sh[(fn, i)] = SDict([]) if type(d) is dict and not d else copy.deepcopy(d)
             return sh[(fn, i)]
         return d
 
@@ -794,7 +794,9 @@ class Frame:
                 raise PyExc(ex)
         if T is ast.Dict:
             from .models import setitem
-            d = {}
+            # an empty display is usually filled later, possibly under symbolic keys and through aliases (arguments,
+            # default values, other containers): start symbolic so that the object identity survives
+            d = {} if e.keys else SDict([])
             for k, v in zip(e.keys, e.values):
                 if k is None:
                     src = s.split(s.ev(v))
